@@ -57,25 +57,52 @@ let diff_detail (want : frame list) (got : frame list) : string =
       let nth l = if k < List.length l then pr_frame (List.nth l k) else "<end>" in
       Printf.sprintf "first-diff-at-frame=%d want=%s got=%s" k (nth want) (nth got)
 
+(* frame* final (READER=<name> frame* final)*  ->  [(name, toks)] ; the first
+   is the primary observation: frames held until the whole stream was read *)
+let split_readers (toks : string list) : (string * string list) list =
+  let rec go acc name cur = function
+    | [] -> List.rev ((name, List.rev cur) :: acc)
+    | t :: r when starts_with "READER=" t -> go ((name, List.rev cur) :: acc) (after "READER=" t) [] r
+    | t :: r -> go acc name (t :: cur) r in
+  go [] "held/plain" [] toks
+
+let worst (vs : verdict list) : verdict =
+  match List.find_opt (function VPropfail _ -> true | _ -> false) vs with
+  | Some v -> v
+  | None ->
+    match List.find_opt (function VDisagree _ -> true | _ -> false) vs with
+    | Some v -> v
+    | None -> VOk (List.exists (function VOk true -> true | _ -> false) vs)
+
+let tagv (what : string) (n : string) (v : verdict) : verdict =
+  match v with
+  | VPropfail (c, d) -> VPropfail (c, "[" ^ what ^ " " ^ n ^ "] " ^ d)
+  | VDisagree d -> VDisagree ("[" ^ what ^ " " ^ n ^ "] " ^ d)
+  | v -> v
+
 (* ---------------------------------------------------------------- RD *)
 
 let judge_rd (tok : string) (outs : string list) : verdict =
   let input = chars_of_hex tok in
-  match parse_observed outs with
-  | Error e -> VDisagree ("unrepresentable-observation:" ^ e)
-  | Ok obs ->
+  let model = lazy (dec_stream input) in
+  let one (rname, toks) =
+    tagv "reader" rname
+    (match parse_observed toks with
+    | Error e -> VDisagree ("unrepresentable-observation:" ^ e)
+    | Ok obs ->
       if not (c19_reader_ok obs) then
         let (_, ofin) = dec_stream_orig input in
         VPropfail ("reader_never_panics",
                    Printf.sprintf "reader-outcome=%s after %d frames; model-of-unrepaired-reader=%s; input-bytes=%d"
-                     (String.concat "," (List.filter (fun t -> t = "PANIC" || t = "CRASH") outs))
+                     (String.concat "," (List.filter (fun t -> t = "PANIC" || t = "CRASH") toks))
                      (List.length (fst obs)) (pr_fin ofin) (List.length input))
       else
-        let (mf, mfin) = dec_stream input in
+        let (mf, mfin) = Lazy.force model in
         if not (fin_eq mfin (snd obs)) then
           VDisagree (Printf.sprintf "final: model=%s impl=%s" (pr_fin mfin) (pr_fin (snd obs)))
         else if not (frames_eq mf (fst obs)) then VDisagree ("frames: " ^ diff_detail mf (fst obs))
-        else VOk (List.length input >= 10)
+        else VOk (List.length input >= 10)) in
+  worst (List.map one (split_readers outs))
 
 (* ---------------------------------------------------------------- MS *)
 
@@ -218,7 +245,9 @@ let judge_ms (ins : string list) (outs : string list) : verdict =
   match !raw with
   | None -> VDisagree "no-RAW-in-observation"
   | Some raw ->
-  match parse_observed !rest with
+  let judge_reader (rname, rtoks) : verdict =
+  tagv "reader" rname (
+  match parse_observed rtoks with
   | Error e -> VDisagree ("unrepresentable-observation:" ^ e)
   | Ok (frames, ofin) ->
   (* the reader must not panic on what the stream wrote either *)
@@ -310,20 +339,11 @@ let judge_ms (ins : string list) (outs : string list) : verdict =
     VDisagree (Printf.sprintf "writes: %d Write calls for %d frames (one Write per frame is what keeps frames whole)" !nw (List.length frames))
   else
     VOk (List.length frames >= 10
-         && List.exists (function FData (_, _, _, _, (_ :: _)) -> true | _ -> false) frames)) in
+         && List.exists (function FData (_, _, _, _, (_ :: _)) -> true | _ -> false) frames))) in
+  worst (List.map judge_reader (split_readers !rest)) in
   (* every sink section is judged; a property failure outranks a disagreement *)
-  let tag sec v = let n = (match sec with t :: _ -> after "SINK=" t | [] -> "?") in
-    match v with
-    | VPropfail (c, d) -> VPropfail (c, "[sink " ^ n ^ "] " ^ d)
-    | VDisagree d -> VDisagree ("[sink " ^ n ^ "] " ^ d)
-    | v -> v in
-  let vs = List.map (fun sec -> tag sec (judge_section sec)) secs in
-  match List.find_opt (function VPropfail _ -> true | _ -> false) vs with
-  | Some v -> v
-  | None ->
-    match List.find_opt (function VDisagree _ -> true | _ -> false) vs with
-    | Some v -> v
-    | None -> VOk (List.exists (function VOk true -> true | _ -> false) vs)
+  let sname sec = (match sec with t :: _ -> after "SINK=" t | [] -> "?") in
+  worst (List.map (fun sec -> tagv "sink" (sname sec) (judge_section sec)) secs)
 
 let judge _name ins outs =
   match ins with
